@@ -19,3 +19,5 @@ def run(ctx):
     S.r33_pop_horizon(ctx, sc)
     S.r34_bound_clamped(ctx, sc)
     S.r25_monotone_clock(ctx, sc)
+    # composition of steps and bounded runs relies on every popped event being executed exactly once (shared rule with C02)
+    S.r21_typestate(ctx, sc)
